@@ -58,6 +58,25 @@ fn rope(bytes: &[u8], shape: &str) -> BinaryData {
             let outer = BinaryData::Slice { parent: Rc::new(BinaryData::new(padded)), offset: 1, length: bytes.len() + 1 };
             BinaryData::Slice { parent: Rc::new(outer), offset: 0, length: bytes.len() }
         }
+        // "drop a header, then drop the next header": the inner view reaches the end of the buffer and the
+        // outer one starts past its beginning
+        "nested_tail" => {
+            let mut padded = vec![0x5Au8, 0x6B];
+            padded.extend_from_slice(bytes);
+            let inner = BinaryData::Slice { parent: Rc::new(BinaryData::new(padded)), offset: 1, length: bytes.len() + 1 };
+            BinaryData::Slice { parent: Rc::new(inner), offset: 1, length: bytes.len() }
+        }
+        // a view into the middle of a concatenation, cut again
+        "nested_concat" => {
+            let k = bytes.len() / 2;
+            let mut left = vec![0x77u8];
+            left.extend_from_slice(&bytes[..k]);
+            let mut right = bytes[k..].to_vec();
+            right.push(0x88);
+            let cat = BinaryData::concat(Rc::new(BinaryData::new(left)), Rc::new(BinaryData::new(right)));
+            let inner = BinaryData::Slice { parent: Rc::new(cat), offset: 1, length: bytes.len() + 1 };
+            BinaryData::Slice { parent: Rc::new(inner), offset: 0, length: bytes.len() }
+        }
         "zero" if bytes.iter().all(|b| *b == 0) => BinaryData::zeroed(bytes.len()),
         "repeat" => {
             // smallest period of the content
